@@ -102,6 +102,13 @@ def gen_cases(tier, seed):
         for driver in ("parfile", "parblock"):
             yield {"spec": spec, "pre": pre, "args": ["--driver", driver] + args, "driver": driver, "variant": v, "fs": "ext4",
                    "pairs": 0 if tier == "quick" else 150, "sseed": r.randrange(1 << 30), "tier": tier}
+    # a thread cannot be created (EAGAIN from clone3: RLIMIT_NPROC, a pids limit): the k-th thread of the run, for every k there is
+    for driver in ("parfile", "parblock"):
+        for w in ((1, 2, 4) if tier == "quick" else (1, 2, 3, 4, 8)):
+            for k in range(1, w + 5):
+                spec, pre, args = mixed_tree(r, 0)
+                yield {"threadfail": k, "spec": spec, "pre": pre, "args": ["--driver", driver, "-w", str(w)] + args[2:], "driver": driver, "variant": 0, "fs": "ext4",      # (args starts with -w N)
+                       "workers": w}
     yield from natural_cases(r, tier)
 
 
@@ -283,7 +290,7 @@ def run_natural(case):
 
 
 def expand_case(case):
-    if case.get("natural"):
+    if case.get("natural") or case.get("threadfail"):
         return [case]
     with core.Sandbox(case["fs"], "c04") as sb:
         root = sb.root
@@ -382,9 +389,40 @@ def judge(case, root, pre, post, run, res, prop_tag="", tolerated=None):
     return bad
 
 
+def run_threadfail(case):
+    res = {"evals": [], "viol": [], "inconc": [], "counters": {}}
+    with core.Sandbox(case["fs"], "c04") as sb:
+        root = sb.root
+        tree.materialize(root, case["spec"])
+        tree.materialize(root, case["pre"])
+        pre = tree.snapshot(root)
+        run = core.run_xcp(sb, case["args"], {"log_mode": "none", "rules": [{"id": "t", "sys": "clone3", "action": "fault", "errno": 11, "nth": case["threadfail"]}]})
+        if run.verdict != "exited":
+            res["inconc"].append("run-" + run.verdict)
+            return res
+        if not run.rule("t")["applied"]:
+            res["counters"]["site-missed"] = 1
+            return res
+        res["counters"]["fault-applied"] = 1
+        res["counters"]["sys:clone3"] = 1
+        if run.exit0:
+            res["counters"]["exit0-after-fault"] = 1
+            post = tree.snapshot(root)
+            for frag, msg in judge(case, root, pre, post, run, res):
+                res["viol"].append({"sig": "%s:clone3:thread:%s" % (case["driver"], frag), "what": "exit 0 although the creation of thread #%d failed with EAGAIN: %s; %s"
+                                    % (case["threadfail"], msg, " ".join(case["args"]))})
+        else:
+            res["counters"]["nonzero-after-fault"] = 1
+        res["evals"].append({"key": [case["driver"], "clone3", "thread-%d-of-w%d" % (case["threadfail"], case["workers"]), 11, 1],
+                             "sample": {"args": case["args"], "thread": case["threadfail"], "exit": run.status}})
+    return res
+
+
 def run_case(case):
     if case.get("natural"):
         return run_natural(case)
+    if case.get("threadfail"):
+        return run_threadfail(case)
     res = {"evals": [], "viol": [], "inconc": [], "counters": {}}
     with core.Sandbox(case["fs"], "c04") as sb:
         root = sb.root
